@@ -19,6 +19,7 @@ use fe2o3_amqp_types::messaging::{Accepted, DeliveryState, Modified, Received, R
 use fe2o3_amqp_types::performatives::*;
 use serde_amqp::described::Described;
 use serde_amqp::descriptor::Descriptor;
+use serde_amqp::primitives::Array;
 use serde_amqp::Value;
 use serde_json::{json, Value as J};
 
@@ -663,6 +664,28 @@ pub fn main(opts: &Opts) {
         std::process::exit(2);
     }
     let mut rng = Rng::new(opts.seed ^ 0xc05);
+    // hand-written valid variants, always run (the recorded exception among them, so that it is
+    // reported by every run and not only when the generator happens to produce it)
+    let by_hand: Vec<(Vec<u8>, Value, &str)> = vec![
+        (vec![0xe0, 0x02, 0x03, 0x41], Value::Array(Array(vec![Value::Bool(true), Value::Bool(true), Value::Bool(true)])), "!41"),
+        (vec![0xf0, 0, 0, 0, 5, 0, 0, 0, 6, 0x43], Value::Array(Array(vec![Value::Uint(0); 6])), "!43"),
+        (vec![0xe0, 0x02, 0x01, 0x44], Value::Array(Array(vec![Value::Ulong(0)])), "!44"),
+        (vec![0xe0, 0x04, 0x02, 0x52, 0x05, 0x06], Value::Array(Array(vec![Value::Uint(5), Value::Uint(6)])), "k00[l10]"),
+        (vec![0xe0, 0x05, 0x02, 0xa3, 0x01, 0x61, 0x00], Value::Array(Array(vec![Value::Symbol("a".into()), Value::Symbol("".into())])), "k00[l00]"),
+    ];
+    for (bytes, v, ch) in by_hand {
+        let text = crate::codec::show(&v);
+        report.evaluations += 1;
+        report.count("hand_written_variants");
+        report.nontrivial_case(fnv(&hex(&bytes)));
+        match crate::codec::dec_slice(&bytes) {
+            crate::codec::DecOut::Ok { value, rest: 0 } if value == text => {}
+            other => {
+                let key = if ch.starts_with('!') { "valid-variant-not-accepted:array-with-zero-width-element-constructor" } else { "valid-variant-not-accepted" };
+                report.finding(Finding { kind: "violation", key: key.into(), description: format!("{} encoded as {} (choices {}) decodes to {:?}", text, hex(&bytes), ch, other), replay: json!({"property": "C05", "module": "specenc", "value": text, "bytes": hex(&bytes), "choices": ch}) });
+            }
+        }
+    }
     let n: u64 = if opts.thorough() { 40_000 } else { 4_000 };
     let mut lines: Vec<String> = vec![];
     let mut imp: Vec<String> = vec![];
